@@ -1,4 +1,125 @@
 import VyxalModel.Model.Transpile
+import VyxalModel.Model.WFPy
+import VyxalModel.Gen.Elements
+import VyxalModel.Gen.Modifiers
+/-!
+# C02 — every well-formed program transpiles to Python that compiles
+
+The step from the emitted *text* to a Python AST is the correspondence (`ast.parse` of the real text
+must equal the model's tree); the theorems are about that tree:
+
+* `templates_parse`: every template of the regenerated element and modifier tables parses;
+* `templates_wf`: no template contains a `break`, `continue` or `return` of its own or a node the
+  serialiser cannot represent — so it is valid wherever a statement is (in every branch of every
+  structure, every modifier slot);
+* the schematic lemmas: each structure template is well formed around any well-formed body, with the
+  `X` / `x` templates well formed exactly in the context (`inLoop`, `inDef`) the templates put them in.
+
+Known findings F5 / F26 are the two places where the context recorded by `parse` is not the context
+the text ends up in (a while *condition*, a list-literal item inside a loop); F7 is the string escape.
+-/
 namespace C02
-theorem placeholder : True := trivial
+open Vy PyAst
+
+def entryParses (e : Gen.Entry) : Bool := e.body.isSome
+
+theorem templates_parse : (Gen.elements ++ Gen.modifiers).all entryParses = true := by decide +kernel
+
+def entryWF (e : Gen.Entry) : Bool :=
+  match e.body with
+  | some b => !b.isEmpty && wfL false false b
+  | none => false
+
+theorem templates_wf : (Gen.elements ++ Gen.modifiers).all entryWF = true := by decide +kernel
+
+theorem wfL_append (l d : Bool) (a b : List PyStmt) : wfL l d (a ++ b) = (wfL l d a && wfL l d b) := by
+  induction a with
+  | nil => simp [wfL]
+  | cons s r ih => simp [wfL, ih, Bool.and_assoc]
+
+/-- whatever is well formed in a context stays well formed in a more permissive one (inside a loop, inside a def) -/
+def le (a b : Bool) : Prop := a = true → b = true
+
+mutual
+theorem wf_monoS : ∀ (s : PyStmt) (l d l' d' : Bool), le l l' → le d d' → wfS l d s = true → wfS l' d' s = true
+  | .assign _ _, _, _, _, _, _, _, h => by simpa [wfS] using h
+  | .augAssign _ _ _, _, _, _, _, _, _, h => by simpa [wfS] using h
+  | .expr _, _, _, _, _, _, _, h => by simpa [wfS] using h
+  | .ifS c t e, l, d, l', d', hl, hd, h => by
+      simp only [wfS, Bool.and_eq_true] at h ⊢
+      exact ⟨⟨⟨h.1.1.1, h.1.1.2⟩, wf_monoL t l d l' d' hl hd h.1.2⟩, wf_monoL e l d l' d' hl hd h.2⟩
+  | .whileS c b, l, d, l', d', _, hd, h => by
+      simp only [wfS, Bool.and_eq_true] at h ⊢
+      exact ⟨⟨h.1.1, h.1.2⟩, wf_monoL b true d true d' (fun x => x) hd h.2⟩
+  | .forS t it b, l, d, l', d', _, hd, h => by
+      simp only [wfS, Bool.and_eq_true] at h ⊢
+      exact ⟨⟨⟨h.1.1.1, h.1.1.2⟩, h.1.2⟩, wf_monoL b true d true d' (fun x => x) hd h.2⟩
+  | .defS _ _ _, _, _, _, _, _, _, h => by simpa [wfS] using h
+  | .defP _ _ _ _, _, _, _, _, _, _, h => by simpa [wfS] using h
+  | .ret v, l, d, l', d', _, hd, h => by
+      simp only [wfS, Bool.and_eq_true] at h ⊢
+      exact ⟨hd h.1, h.2⟩
+  | .brk, l, d, l', d', hl, _, h => by simp only [wfS] at h ⊢; exact hl h
+  | .cont, l, d, l', d', hl, _, h => by simp only [wfS] at h ⊢; exact hl h
+  | .pass, _, _, _, _, _, _, _ => by simp [wfS]
+  | .tryS b hs o f, l, d, l', d', hl, hd, h => by
+      simp only [wfS, Bool.and_eq_true] at h ⊢
+      exact ⟨⟨⟨⟨h.1.1.1.1, wf_monoL b l d l' d' hl hd h.1.1.1.2⟩, wf_monoLL hs l d l' d' hl hd h.1.1.2⟩,
+        wf_monoL o l d l' d' hl hd h.1.2⟩, wf_monoL f l d l' d' hl hd h.2⟩
+  | .other _ _ _, _, _, _, _, _, _, h => by simp [wfS] at h
+theorem wf_monoL : ∀ (b : List PyStmt) (l d l' d' : Bool), le l l' → le d d' → wfL l d b = true → wfL l' d' b = true
+  | [], _, _, _, _, _, _, _ => by simp [wfL]
+  | s :: r, l, d, l', d', hl, hd, h => by
+      simp only [wfL, Bool.and_eq_true] at h ⊢
+      exact ⟨wf_monoS s l d l' d' hl hd h.1, wf_monoL r l d l' d' hl hd h.2⟩
+theorem wf_monoLL : ∀ (b : List (List PyStmt)) (l d l' d' : Bool), le l l' → le d d' → wfLL l d b = true → wfLL l' d' b = true
+  | [], _, _, _, _, _, _, _ => by simp [wfLL]
+  | s :: r, l, d, l', d', hl, hd, h => by
+      simp only [wfLL, Bool.and_eq_true] at h ⊢
+      exact ⟨wf_monoL s l d l' d' hl hd h.1, wf_monoLL r l d l' d' hl hd h.2⟩
+end
+
+/-- hence a template of the tables is valid in every position of every structure -/
+theorem template_valid_everywhere (e : Gen.Entry) (he : e ∈ Gen.elements ++ Gen.modifiers) (b : List PyStmt)
+    (hb : e.body = some b) (l d : Bool) : wfL l d b = true := by
+  have h := List.all_eq_true.mp templates_wf e he
+  simp only [entryWF, hb, Bool.and_eq_true] at h
+  exact wf_monoL b false false l d (fun x => by simp at x) (fun x => by simp at x) h.2
+
+/-! ## structure templates -/
+
+theorem for_template_wf (l d : Bool) (var : PyExpr) (body : List PyStmt)
+    (hv : wfTarget var = true) (hve : wfE var = true) (hb : wfL true d body = true) :
+    wfL l d (forTemplate var body) = true := by
+  simp [forTemplate, wfL, wfS, wfL_append, hb, hv, hve, ctxCall, ctxE, callN, nm, pop1kw, stackE, kwCtx, wfE, wfEL, wfKw]
+
+theorem while_template_wf (l d : Bool) (cond body : List PyStmt)
+    (hc : ∀ l', wfL l' d cond = true) (hb : wfL true d body = true) :
+    wfL l d (whileTemplate cond body) = true := by
+  simp [whileTemplate, wfL, wfS, wfL_append, hb, hc, condPop, boolifyCond, assign1, ctxCall, ctxE, callN, nm, pop1kw, stackE,
+    kwCtx, wfE, wfEL, wfKw, wfTarget]
+
+theorem break_in_loop_wf (d : Bool) : wfL true d (breakTemplate .forS) = true := by
+  simp [breakTemplate, wfL, wfS, ctxCall, ctxE, wfE, wfEL, wfKw]
+
+theorem continue_in_loop_wf (d : Bool) : wfL true d (recurseTemplate .whileS) = true := by
+  simp [recurseTemplate, wfL, wfS, ctxCall, ctxE, wfE, wfEL, wfKw]
+
+theorem break_in_lambda_wf (l : Bool) : wfL l true (breakTemplate .lam) = true := by
+  cases l <;> decide
+
+/-- the failing placement of F5 / F26: the loop's `break` template outside any loop -/
+theorem break_outside_loop_not_wf (d : Bool) : wfL false d (breakTemplate .forS) = false := by
+  cases d <;> decide
+
+theorem lambda_template_wf (l d : Bool) (id : Str) (ar : PyExpr) (body : List PyStmt)
+    (har : wfE ar = true) (hb : wfL false true body = true) :
+    wfL l d (lambdaTemplate id ar body) = true := by
+  have hp : wfL false true (lambdaPrologue ar) = true := by
+    simp [lambdaPrologue, wfL, wfS, assign1, ctxCall, ctxE, callN, nm, stackE, kwCtx, wfE, wfEL, wfKw, wfC, wfO, wfTarget, har]
+  have he : wfL false true lambdaEpilogue = true := by decide
+  have hne : ¬ lambdaEpilogue = [] := by simp [lambdaEpilogue]
+  simp [lambdaTemplate, wfL, wfS, wfL_append, hp, he, hb, lambdaParams, wfO, wfE, assign1, push, stackE, wfTarget, wfEL,
+    wfKw, har, hne]
+
 end C02
